@@ -13,6 +13,8 @@ package main
 import (
 	"encoding/json"
 	"fmt"
+	"go/ast"
+	"go/token"
 	"go/types"
 	"os"
 	"path/filepath"
@@ -83,6 +85,7 @@ type loaded struct {
 	loadS    float64
 	buildS   float64
 	rootPkgs []*ssa.Package
+	embeds   map[*ssa.Global][]byte
 }
 
 func loadProgram(prop string) *loaded {
@@ -116,7 +119,7 @@ func loadProgram(prop string) *loaded {
 	}
 	sort.Strings(patterns)
 	cfg := &packages.Config{
-		Mode:    packages.LoadAllSyntax,
+		Mode:    packages.LoadAllSyntax | packages.NeedEmbedFiles | packages.NeedEmbedPatterns,
 		Dir:     repoDir,
 		Overlay: overlay,
 		Env:     append(os.Environ(), "GOFLAGS=-mod=mod", "GOPROXY=off", "GOSUMDB=off", "GOTOOLCHAIN=local"),
@@ -141,8 +144,50 @@ func loadProgram(prop string) *loaded {
 	prog, _ := ssautil.AllPackages(initial, ssa.InstantiateGenerics|ssa.SanityCheckFunctions&0)
 	prog.Build()
 	t2 := time.Now()
-	ld := &loaded{prog: prog, harness: map[string]*ssa.Function{}, hpkg: map[string]string{}, files: files,
+	ld := &loaded{prog: prog, harness: map[string]*ssa.Function{}, hpkg: map[string]string{}, files: files, embeds: map[*ssa.Global][]byte{},
 		loadS: t1.Sub(t0).Seconds(), buildS: t2.Sub(t1).Seconds()}
+	// go:embed variables of type []byte / string
+	packages.Visit(initial, nil, func(p *packages.Package) {
+		if len(p.EmbedFiles) == 0 {
+			return
+		}
+		sp := prog.Package(p.Types)
+		if sp == nil {
+			return
+		}
+		for _, file := range p.Syntax {
+			for _, d := range file.Decls {
+				gd, ok := d.(*ast.GenDecl)
+				if !ok || gd.Tok != token.VAR {
+					continue
+				}
+				for _, spec := range gd.Specs {
+					vs := spec.(*ast.ValueSpec)
+					doc := vs.Doc
+					if doc == nil {
+						doc = gd.Doc
+					}
+					if doc == nil || len(vs.Names) != 1 {
+						continue
+					}
+					for _, c := range doc.List {
+						if !strings.HasPrefix(c.Text, "//go:embed ") {
+							continue
+						}
+						pat := strings.TrimSpace(strings.TrimPrefix(c.Text, "//go:embed "))
+						dir := filepath.Dir(p.Fset.Position(file.Pos()).Filename)
+						data, err := os.ReadFile(filepath.Join(dir, pat))
+						if err != nil {
+							continue
+						}
+						if g, ok := sp.Members[vs.Names[0].Name].(*ssa.Global); ok {
+							ld.embeds[g] = data
+						}
+					}
+				}
+			}
+		}
+	})
 	for _, ip := range initial {
 		sp := prog.Package(ip.Types)
 		if sp == nil {
@@ -178,6 +223,14 @@ func newWorker(id int, sh *Shared, ld *loaded, e *Explorer) *Worker {
 				*cell = zero(deref(g.Type()))
 				in.globals[g] = cell
 			}
+		}
+	}
+	for g, data := range ld.embeds {
+		cell := in.globals[g]
+		if _, isStr := deref(g.Type()).Underlying().(*types.Basic); isStr {
+			*cell = string(data)
+		} else if _, isSlice := deref(g.Type()).Underlying().(*types.Slice); isSlice {
+			*cell = bytesValue(data)
 		}
 	}
 	in.ts = NewTermStore()
@@ -225,9 +278,9 @@ func cfgFor(t string) tierCfg {
 		return tierCfg{timeout: time.Duration(n) * time.Second, maxPaths: 600000, budget: 100000000, queryMs: 20000}
 	}
 	if t == "thorough" {
-		return tierCfg{timeout: 25 * time.Minute, maxPaths: 4000000, budget: 400000000, queryMs: 120000}
+		return tierCfg{timeout: 25 * time.Minute, maxPaths: 4000000, budget: 400000000, queryMs: 60000}
 	}
-	return tierCfg{timeout: 4 * time.Minute, maxPaths: 600000, budget: 100000000, queryMs: 20000}
+	return tierCfg{timeout: 4 * time.Minute, maxPaths: 600000, budget: 50000000, queryMs: 8000}
 }
 
 func main() {
@@ -321,7 +374,10 @@ func checkProperty(prop, only string) int {
 		fatal("no harness for property %s", prop)
 	}
 	sh := NewShared(ld.prog)
-	e := &Explorer{sh: sh}
+	e := &Explorer{sh: sh, pathTimeout: 60 * time.Second}
+	if tier == "thorough" {
+		e.pathTimeout = 300 * time.Second
+	}
 	e.cond = sync.NewCond(&e.mu)
 	t0 := time.Now()
 	ws := make([]*Worker, nworkers)
@@ -332,6 +388,7 @@ func checkProperty(prop, only string) int {
 			defer wg.Done()
 			ws[k] = newWorker(k, sh, ld, e)
 			ws[k].solver = NewSolver(cfg.queryMs)
+			ws[k].xsolver = NewSolver(4000)
 			ws[k].crossEvery = 97
 			if tier == "thorough" {
 				ws[k].crossEvery = 13
@@ -344,6 +401,7 @@ func checkProperty(prop, only string) int {
 	defer func() {
 		for _, w := range ws {
 			w.solver.Close()
+			w.xsolver.Close()
 		}
 	}()
 	if os.Getenv("GOSYM_VERBOSE") != "" {
